@@ -49,6 +49,7 @@ pub fn exec_op(op: &str) -> String {
             .or_else(|| suites::framer::exec(&args))
             .or_else(|| suites::assembler::exec(&args))
             .or_else(|| suites::config::exec(&args))
+            .or_else(|| suites::dsp::exec(&args))
     });
     match res {
         Ok(Some(s)) => s,
@@ -243,6 +244,8 @@ fn main() {
         "sigseq" => suites::signal::run_seq(&ctx),
         "sigphase" => suites::signal::run_phase(&ctx),
         "cfgfuzz" => suites::config::run(&ctx),
+        "dsp" => suites::dsp::run(&ctx),
+        "fullrx" => suites::fullrx::run(&ctx),
         "app" => suites::app::run_app(&ctx),
         "appfault" => suites::app::run_fault(&ctx),
         "expand" => {
